@@ -80,6 +80,20 @@ func init() {
 					}
 				}
 			}
+			// release values at the edge of what a format takes as a number
+			for _, f := range Formats {
+				for _, rel := range []string{"0", "00", "-1", "007", "1.5", "r2", "2rc", " 3"} {
+					for _, pre := range []string{"", "rc1"} {
+						for _, ep := range []string{"", "1"} {
+							c := baseMeta()
+							c.Release, c.Prerelease, c.Epoch = rel, pre, ep
+							if !yield(C15Case{Part: "name", Format: f, Cfg: c}) {
+								return
+							}
+						}
+					}
+				}
+			}
 			// a platform other than linux (deb, rpm and ipk take one): the name and the metadata state the same architecture
 			for _, f := range []string{"deb", "rpm", "ipk"} {
 				for _, plat := range []string{"darwin", "kfreebsd", "linux"} {
@@ -132,7 +146,7 @@ func init() {
 				}
 			}
 			for _, f := range Formats {
-				for _, tg := range []string{"file", "dir", "empty", "foreign-ext", "nested-missing-dir"} {
+				for _, tg := range []string{"file", "dir", "empty", "foreign-ext", "nested-missing-dir", "file-noext", "file-dotted-dir"} {
 					for _, wp := range []bool{true, false} {
 						for _, pre := range []string{"", "rc1"} {
 							c := baseMeta()
@@ -340,6 +354,17 @@ func checkC15(env *engine.Env, ci any) engine.Outcome {
 	case "empty":
 		target = ""
 		wantPath, wantFormat = filepath.Join(work, conv), f
+		wantFail = !c.WithP
+	case "file-noext":
+		// a file target without any extension that does not exist yet: still a file, at exactly that path
+		target = filepath.Join(work, "outdir", "mypackage")
+		wantPath, wantFormat = target, f
+		wantFail = !c.WithP // nothing to infer the packager from
+	case "file-dotted-dir":
+		// the directory has a dot in its name, the file has no extension
+		os.Mkdir(filepath.Join(work, "out.d"), 0o755)
+		target = filepath.Join(work, "out.d", "pkgfile")
+		wantPath, wantFormat = target, f
 		wantFail = !c.WithP
 	case "foreign-ext":
 		target = filepath.Join(work, "outdir", "custom-name."+other)
